@@ -10,12 +10,17 @@ use crate::ogre_std::{
         },
         ogre_sync,
     };
+#[cfg(not(feature = "verif"))]
 use std::{
     time::Duration,
     sync::atomic::{AtomicU32, AtomicBool, Ordering::Relaxed},
     pin::Pin,
     task::Waker,
 };
+#[cfg(feature = "verif")]
+use std::{time::Duration, sync::atomic::Ordering::Relaxed, pin::Pin, task::Waker};
+#[cfg(feature = "verif")]
+use crate::verif::{AtomicU32, AtomicBool};
 use std::cell::UnsafeCell;
 use minstant::Instant;
 
@@ -89,6 +94,8 @@ StreamsManagerBase<MAX_STREAMS> {
                            self.streams_manager_name, self.created_streams_count.load(Relaxed), self.finished_streams_count.load(Relaxed)),
         };
         let keep_streams_running = unsafe { &mut * self.keep_streams_running.get() };
+        #[cfg(feature = "verif")]
+        crate::verif::yield_point_at("sm.keep.set", self as *const Self as usize);
         keep_streams_running[stream_id as usize] = true;
         self.sync_vacant_and_used_streams();
         stream_id
@@ -98,6 +105,8 @@ StreamsManagerBase<MAX_STREAMS> {
     #[inline(always)]
     pub fn wake_stream(&self, stream_id: u32) {
         let wakers = unsafe { &* self.wakers.get() };
+        #[cfg(feature = "verif")]
+        crate::verif::yield_point_at("sm.wake.peek", self as *const Self as usize);
         match unsafe {wakers.get_unchecked(stream_id as usize)} {
             Some(waker) => waker.wake_by_ref(),
             None => {
@@ -124,6 +133,8 @@ StreamsManagerBase<MAX_STREAMS> {
     /// Returns `false` if the `Stream` has been signaled to end its operations, causing it to report "out-of-elements" as soon as possible.
     #[inline(always)]
     pub fn keep_stream_running(&self, stream_id: u32) -> bool {
+        #[cfg(feature = "verif")]
+        crate::verif::yield_point_at("sm.keep.read", self as *const Self as usize);
         unsafe {
             let keep_streams_running = &* self.keep_streams_running.get();
             *keep_streams_running.get_unchecked(stream_id as usize)
@@ -148,6 +159,8 @@ StreamsManagerBase<MAX_STREAMS> {
     /// Also guarantees that it will be awoken to react to the command immediately
     pub fn cancel_stream(&self, stream_id: u32) {
         let keep_streams_running = unsafe { &mut * self.keep_streams_running.get() };
+        #[cfg(feature = "verif")]
+        crate::verif::yield_point_at("sm.keep.clear", self as *const Self as usize);
         keep_streams_running[stream_id as usize] = false;
         self.wake_stream(stream_id);
     }
@@ -157,6 +170,8 @@ StreamsManagerBase<MAX_STREAMS> {
     pub fn cancel_all_streams(&self) {
         let used_streams = unsafe { &* self.used_streams.get() };
         for stream_id in used_streams.iter() {
+            #[cfg(feature = "verif")]
+            crate::verif::yield_point_at("sm.used.read", self as *const Self as usize);
             if *stream_id == u32::MAX {
                 break
             }
@@ -168,6 +183,8 @@ StreamsManagerBase<MAX_STREAMS> {
     pub fn register_stream_waker(&self, stream_id: u32, waker: &Waker) {
 
         let wakers = unsafe { &mut * self.wakers.get() };
+        #[cfg(feature = "verif")]
+        crate::verif::yield_point_at("sm.waker.peek", self as *const Self as usize);
 
         macro_rules! set {
             () => {
@@ -237,18 +254,24 @@ StreamsManagerBase<MAX_STREAMS> {
                 Some(next_vacant_stream_id) => {
                     for used_stream_id in i .. *next_vacant_stream_id {
                         last_used_stream_id += 1;
+                        #[cfg(feature = "verif")]
+                        crate::verif::yield_point_at("sm.used.write", self as *const Self as usize);
                         unsafe { *used_streams.get_unchecked_mut(last_used_stream_id as usize)  = used_stream_id };
                     }
                     i = *next_vacant_stream_id + 1;
                 }
                 None => {
                     last_used_stream_id += 1;
+                    #[cfg(feature = "verif")]
+                    crate::verif::yield_point_at("sm.used.write", self as *const Self as usize);
                     unsafe { *used_streams.get_unchecked_mut(last_used_stream_id as usize) = i };
                     i += 1;
                 }
             }
         }
         for i in (last_used_stream_id + 1) as usize .. MAX_STREAMS {
+            #[cfg(feature = "verif")]
+            crate::verif::yield_point_at("sm.used.write", self as *const Self as usize);
             unsafe { *used_streams.get_unchecked_mut(i) = u32::MAX };
         }
         ogre_sync::unlock(&self.streams_lock);
